@@ -913,7 +913,14 @@ def _r5_mappings(ctx):
                             why = "inside try/except %s" % "/".join(names)
                 p_ = par
             # (e) constant key of a folded module-level table
-            if why is None and isinstance(sl, ast.Constant):
+            kconst = sl
+            if isinstance(sl, ast.Name) and not P._is_local(fi, sl.id):
+                try:
+                    kconst = ast.Constant(value=m.fold(fi.module, sl))
+                except Exception:
+                    kconst = sl
+            if why is None and isinstance(kconst, ast.Constant):
+                sl_ = kconst
                 try:
                     tbl = m.resolve(fi.module, x.value)
                     modname, _, nm = (tbl or "").rpartition(".")
@@ -921,7 +928,7 @@ def _r5_mappings(ctx):
                         m.modules else None
                     if vals and isinstance(vals[0], ast.Dict) and any(
                             isinstance(k, ast.Constant)
-                            and k.value == sl.value for k in vals[0].keys):
+                            and k.value == sl_.value for k in vals[0].keys):
                         why = "constant key present in the module table"
                 except Exception:
                     pass
@@ -982,7 +989,8 @@ def _r7_validator(ctx):
     run, m, P = ctx.run, ctx.model, ctx.program
     from zcstatic import absint as A
     fn = m.fn("ZConfig.validator.main")
-    paths = A.Interp(fn, P, loop_policy=lambda n: "twice").paths()
+    paths = A.Interp(fn, P, loop_policy=lambda n: "twice",
+                     exact_loops=True).paths()
     n_fail = 0
     n_checked = 0
     seen_two = False
